@@ -469,6 +469,12 @@ def gen_move(rng, cfg, w: World, opid: int, invalid: bool, steer: bool):
         if special:
             nm = rng.choice(special)  # nodes with explicit (possibly reserved-looking) ids
     op = {"id": opid, "k": "move", "node": nm.uid}
+    if invalid and rng.random() < 0.12:
+        # "move me before myself" below my own parent: refusing or doing nothing are
+        # both fine, detaching the node is not
+        op["target"] = ref_of(si, nm.parent)
+        op["before"] = {"node": nm.uid}
+        return op
     if invalid and rng.random() < 0.5:
         r = rng.random()
         desc = list(nm.iter_pre())
